@@ -203,6 +203,9 @@ func batch(t *testing.T, p *Prop) {
 			res.Hashes = append(res.Hashes, h)
 		}
 		sort.Strings(res.Hashes)
+		for _, st := range simrt.SitesReached() {
+			res.Counters["site."+st] = 1 // statements of the library this worker process executed (merged by verifrun)
+		}
 		res.WallS = time.Since(start).Seconds()
 		b, _ := json.Marshal(res)
 		tmp := filepath.Join(*fOut, fmt.Sprintf("result-%s-%d.json.tmp", *fLayer, *fWorker))
